@@ -140,6 +140,8 @@ pub struct Exec<'p> {
     pub sys: Arc<crate::interpose::SysState>,
     /// every finding of every property stops the run (used for post-crash continuation runs)
     pub focus_any: bool,
+    /// long-lived Writer instances per index slot (when the plan says writers are reused across transactions)
+    writers: Vec<Option<(Metric, std::rc::Rc<dyn std::any::Any>)>>,
 }
 
 fn panic_msg(e: Box<dyn std::any::Any + Send>) -> String {
@@ -221,6 +223,7 @@ impl<'p> Exec<'p> {
             cancel_budget_override: None,
             sys,
             focus_any: false,
+            writers: (0..n).map(|_| None).collect(),
         };
         ex.open_env();
         ex
@@ -265,6 +268,7 @@ impl<'p> Exec<'p> {
             cancel_budget_override: None,
             sys,
             focus_any: true,
+            writers: (0..n).map(|_| None).collect(),
         };
         ex.open_env();
         ex
@@ -275,6 +279,28 @@ impl<'p> Exec<'p> {
         self.wtxn = None;
         self.close_env();
         std::mem::take(&mut self.out)
+    }
+
+    /// The Writer used for slot `ix`: one long-lived instance per index when the plan reuses writers
+    /// across transactions (as an application holding a Writer would), a fresh one per call otherwise.
+    fn writer_rc(&mut self, ix: usize) -> std::rc::Rc<dyn std::any::Any> {
+        let im = &self.world.indexes[ix];
+        let (metric, index, dim) = (im.metric, im.index, im.dim);
+        if self.plan.cfg.reuse_writer {
+            if let Some((m, w)) = &self.writers[ix] {
+                if *m == metric {
+                    return w.clone();
+                }
+            }
+        }
+        let db = self.db();
+        let private = self.plan.cfg.private_tmpdir;
+        let tmp = self.tmpdir.clone();
+        let rc: std::rc::Rc<dyn std::any::Any> = with_metric!(metric, D, { std::rc::Rc::new(writer::<D>(db, index, dim, &tmp, private)) as std::rc::Rc<dyn std::any::Any> });
+        if self.plan.cfg.reuse_writer {
+            self.writers[ix] = Some((metric, rc.clone()));
+        }
+        rc
     }
 
     pub fn env(&self) -> &Env<WithoutTls> {
@@ -298,6 +324,10 @@ impl<'p> Exec<'p> {
         wtxn.commit().unwrap();
         self.env = Some(env);
         self.db = Some(db);
+        // database handles are bound to the environment instance
+        for w in self.writers.iter_mut() {
+            *w = None;
+        }
     }
 
     pub fn close_env(&mut self) {
@@ -549,11 +579,10 @@ impl<'p> Exec<'p> {
             true
         };
         self.trace_step(if append { "append" } else { "add" });
-        let db = self.db();
-        let tmp = self.tmpdir.clone();
+        let wrc = self.writer_rc(ix);
         let wtxn = self.wtxn.as_mut().unwrap();
         let res = with_metric!(im.metric, D, {
-            let w = writer::<D>(db, im.index, im.dim, &tmp, false);
+            let w: &Writer<D> = wrc.downcast_ref::<Writer<D>>().expect("writer type");
             catch_unwind(AssertUnwindSafe(|| if append { w.append_item(wtxn, id, &vec) } else { w.add_item(wtxn, id, &vec) }))
         });
         self.out.stats.ops += 1;
@@ -599,11 +628,10 @@ impl<'p> Exec<'p> {
         let existed = im.items.contains_key(&id);
         let before = self.pre_dump();
         self.trace_step("del");
-        let db = self.db();
-        let tmp = self.tmpdir.clone();
+        let wrc = self.writer_rc(ix);
         let wtxn = self.wtxn.as_mut().unwrap();
         let res = with_metric!(im.metric, D, {
-            let w = writer::<D>(db, im.index, im.dim, &tmp, false);
+            let w: &Writer<D> = wrc.downcast_ref::<Writer<D>>().expect("writer type");
             catch_unwind(AssertUnwindSafe(|| w.del_item(wtxn, id)))
         });
         self.out.stats.ops += 1;
@@ -641,11 +669,10 @@ impl<'p> Exec<'p> {
         let im = self.world.indexes[ix].clone();
         let before = self.pre_dump();
         self.trace_step("clear");
-        let db = self.db();
-        let tmp = self.tmpdir.clone();
+        let wrc = self.writer_rc(ix);
         let wtxn = self.wtxn.as_mut().unwrap();
         let res = with_metric!(im.metric, D, {
-            let w = writer::<D>(db, im.index, im.dim, &tmp, false);
+            let w: &Writer<D> = wrc.downcast_ref::<Writer<D>>().expect("writer type");
             catch_unwind(AssertUnwindSafe(|| w.clear(wtxn)))
         });
         self.out.stats.ops += 1;
@@ -688,11 +715,10 @@ impl<'p> Exec<'p> {
         let before = Some(self.dump_current());
         let vec = vec![0.5f32; len];
         self.trace_step("bad_add");
-        let db = self.db();
-        let tmp = self.tmpdir.clone();
+        let wrc = self.writer_rc(ix);
         let wtxn = self.wtxn.as_mut().unwrap();
         let res = with_metric!(im.metric, D, {
-            let w = writer::<D>(db, im.index, im.dim, &tmp, false);
+            let w: &Writer<D> = wrc.downcast_ref::<Writer<D>>().expect("writer type");
             catch_unwind(AssertUnwindSafe(|| if append { w.append_item(wtxn, id, &vec) } else { w.add_item(wtxn, id, &vec) }))
         });
         self.out.stats.probe("rejected_dimension");
@@ -760,13 +786,23 @@ impl<'p> Exec<'p> {
         self.trace_step("change_metric");
         let db = self.db();
         let tmp = self.tmpdir.clone();
+        let private = self.plan.cfg.private_tmpdir;
         let wtxn = self.wtxn.as_mut().unwrap();
+        let mut new_writer: Option<std::rc::Rc<dyn std::any::Any>> = None;
         let res = with_metric!(im.metric, D, {
             with_metric!(to, ND, {
-                let w = writer::<D>(db, im.index, im.dim, &tmp, false);
-                catch_unwind(AssertUnwindSafe(|| w.prepare_changing_distance::<ND>(wtxn).map(|_| ())))
+                // prepare_changing_distance consumes the writer and returns the one for the new metric
+                let w = writer::<D>(db, im.index, im.dim, &tmp, private);
+                catch_unwind(AssertUnwindSafe(|| {
+                    w.prepare_changing_distance::<ND>(wtxn).map(|nw| {
+                        new_writer = Some(std::rc::Rc::new(nw) as std::rc::Rc<dyn std::any::Any>);
+                    })
+                }))
             })
         });
+        if self.plan.cfg.reuse_writer {
+            self.writers[ix] = new_writer.map(|w| (to, w));
+        }
         self.out.stats.ops += 1;
         self.out.stats.probe(if to == im.metric { "metric_identity" } else { "metric_change" });
         match res {
@@ -833,10 +869,10 @@ impl<'p> Exec<'p> {
     fn check_item(&mut self, ix: usize, id: u32) -> R<()> {
         let im = self.world.indexes[ix].clone();
         let db = self.db();
-        let tmp = self.tmpdir.clone();
+        let wrc = self.writer_rc(ix);
         let finding: Option<String> = self.with_read(|_, txn| {
             with_metric!(im.metric, D, {
-                let w = writer::<D>(db, im.index, im.dim, &tmp, false);
+                let w: &Writer<D> = wrc.downcast_ref::<Writer<D>>().expect("writer type");
                 let exp = im.items.get(&id);
                 match w.contains_item(txn, id) {
                     Ok(b) if b == exp.is_some() => {}
@@ -868,10 +904,10 @@ impl<'p> Exec<'p> {
     fn check_store_full(&mut self, ix: usize) -> R<()> {
         let im = self.world.indexes[ix].clone();
         let db = self.db();
-        let tmp = self.tmpdir.clone();
+        let wrc = self.writer_rc(ix);
         let finding: Option<String> = self.with_read(|_, txn| {
             with_metric!(im.metric, D, {
-                let w = writer::<D>(db, im.index, im.dim, &tmp, false);
+                let w: &Writer<D> = wrc.downcast_ref::<Writer<D>>().expect("writer type");
                 let it = match w.iter(txn) {
                     Ok(it) => it,
                     Err(e) => return Some(format!("iter failed: {e}")),
@@ -948,13 +984,17 @@ impl<'p> Exec<'p> {
 
     /// C06: need_build and Reader::open under every metric agree with the automaton.
     fn check_staleness(&mut self, ix: usize) -> R<()> {
+        self.check_staleness_pub(ix, &[])
+    }
+
+    pub fn check_staleness_pub(&mut self, ix: usize, extra: &[&'static str]) -> R<()> {
         let im = self.world.indexes[ix].clone();
         let db = self.db();
-        let tmp = self.tmpdir.clone();
+        let wrc = self.writer_rc(ix);
         let all_metrics = self.focus == "C06" || self.focus == "C18" || self.step_no % 7 == 0;
         let finding: Option<String> = self.with_read(|_, txn| {
             let nb = with_metric!(im.metric, D, {
-                let w = writer::<D>(db, im.index, im.dim, &tmp, false);
+                let w: &Writer<D> = wrc.downcast_ref::<Writer<D>>().expect("writer type");
                 w.need_build(txn).map_err(|e| e.to_string())
             });
             let expect_nb = im.state != Staleness::Built;
@@ -982,7 +1022,9 @@ impl<'p> Exec<'p> {
             None
         });
         if let Some(f) = finding {
-            self.report(&["C06"], "staleness", format!("index {}: {f}", im.index))?;
+            let mut props = vec!["C06"];
+            props.extend_from_slice(extra);
+            self.report(&props, "staleness", format!("index {}: {f}", im.index))?;
         }
         Ok(())
     }
@@ -1015,12 +1057,19 @@ impl<'p> Exec<'p> {
             }
             _ => self.tmpdir.clone(),
         };
-        let use_private = self.plan.cfg.private_tmpdir || bad_tmpdir.is_some();
+        let wrc = if bad_tmpdir.is_none() { Some(self.writer_rc(ix)) } else { None };
         let wtxn = self.wtxn.as_mut().unwrap();
         let b2 = bctx.clone();
         let b3 = bctx.clone();
         let res = with_metric!(im.metric, D, {
-            let w = writer::<D>(db, im.index, im.dim, &tmp, use_private);
+            let fresh;
+            let w: &Writer<D> = match &wrc {
+                Some(rc) => rc.downcast_ref::<Writer<D>>().expect("writer type"),
+                None => {
+                    fresh = writer::<D>(db, im.index, im.dim, &tmp, true);
+                    &fresh
+                }
+            };
             let mut rng = StdRng::seed_from_u64(seed);
             catch_unwind(AssertUnwindSafe(|| {
                 let mut b = w.builder(&mut rng);
@@ -1295,7 +1344,10 @@ impl<'p> Exec<'p> {
         let db = self.db();
         let qn = self.plan.cfg.queries;
         let qseed = self.plan.cfg.query_seed ^ (self.step_no as u64) << 8;
-        let profile = self.profiles[ix].unwrap_or(Profile::Lattice);
+        let profile = match self.profiles[ix] {
+            Some(p) if p.accurate() || !accurate => p,
+            _ => Profile::Lattice,
+        };
         let data_seed = self.plan.cfg.data_seed;
         let deep = self.focus == "C03" || self.deep_queries;
         let focus_c04 = self.focus == "C04";
@@ -1543,7 +1595,10 @@ pub fn run_history(plan: &Plan, workdir: &Path) -> Outcome {
             return o;
         }
     }
-    let out = ex.run();
+    let mut out = ex.run();
+    if plan.focus == "C13" && out.stats.max_in_flight >= 2 {
+        out.stats.nontrivial.push(out.trace_hash);
+    }
     crate::ctx::set_active(None);
     crate::turnstile::release_thread();
     let _ = std::fs::remove_dir_all(workdir);
